@@ -137,7 +137,7 @@ Lemma changes_ext tr lk lk' tid cid td cd out :
   changes_to_actions tr lk tid cid td cd out = changes_to_actions tr lk' tid cid td cd out.
 Proof.
   intros H. unfold changes_to_actions, filter_gone, filter_new, is_created.
-  rewrite (H (root_name tid)). reflexivity.
+  rewrite (H (root_name tid)), (H tid). reflexivity.
 Qed.
 
 Lemma flush_cols_ext tr lk lk' tt cols : (forall k, lk k = lk' k) ->
